@@ -15,7 +15,7 @@ CLAIMED = {
     "C04": ("TLA+ spec (Matcher.tla: search machine refines Find/RFind) model-checked by TLC; every explored "
             "(op,haystack,needle) replayed into all pattern kinds of the real functions; recorded random calls "
             "validated against the trace spec Trace_Matcher.tla",
-            "Exhaustive within bounds: all haystacks over {a,b} (<=7 bytes quick, <=9 thorough) x all needles "
+            "Exhaustive within bounds: all haystacks over {a,b} (<=8 bytes quick, <=10 thorough) x all needles "
             "(<=4/<=5) and {a,b,n-tilde} strings, every operation and pattern kind compared with the "
             "specification's reference on the real code; beyond the bounds 20k-320k recorded calls on 40-byte "
             "haystacks built from needle fragments must be accepted by the specification.",
